@@ -381,7 +381,7 @@ func runC04(c *run.Ctx) {
 	nestedDef := c.Open("K-C04-nested-default")
 	forms := []string{"literal", "var-json", "var-native", "var-default", "nested", "var-over-default", "var-null-with-default", "var-unset"}
 	total := 0
-	perType := c.N(14, len(pool)+30)
+	perType := c.N(30, len(pool)+30)
 	for _, bk := range []string{"iface", "any"} {
 		h, err := back.Build(bk, s, sdl, g)
 		if err != nil {
